@@ -137,6 +137,24 @@ def topology_path(topology, path):
                 else:
                     return topology_path(subtopology, tail)
 
+def wired_paths(topology, base=()):
+    '''
+    The paths, relative to the parent of a process, of the stores that
+    its topology wires ports (or parts of ports) to.
+    '''
+    for key, value in topology.items():
+        if key == '_path':
+            continue
+        if isinstance(value, dict):
+            inner = base + tuple(value.get('_path', ()))
+            if '_path' in value:
+                yield inner
+            for path in wired_paths(value, inner):
+                yield path
+        else:
+            yield base + tuple(value)
+
+
 def insert_topology(topology, port_path, target_path):
     assert isinstance(port_path, tuple)
     assert len(port_path) > 0
@@ -1368,8 +1386,26 @@ class Store:
         # the initial state of variables that only a glob port of another
         # process declares can be set now that the sub-schemas exist
         target.set_value(insertion['initial_state'])
+        self._default_wired_stores(process_paths + step_paths)
 
         return process_updates, step_updates, flow_updates, topology_updates
+
+    def _default_wired_stores(self, process_paths):
+        '''
+        Variables that new processes declare outside the new subtree
+        (ports wired with '..') exist after :py:meth:`generate`, but
+        without a value: apply the defaults of the stores the processes
+        at the given absolute paths are wired to.
+        '''
+        top = self.top()
+        for process_path, _ in process_paths:
+            node = top.get_path(process_path)
+            for wired in wired_paths(node.topology or {}):
+                try:
+                    node.outer.get_path(wired).apply_defaults()
+                except Exception:  # pylint: disable=broad-except
+                    # not a store (e.g. wired into another process)
+                    continue
 
     def divide(self, divide):
         '''
@@ -1468,6 +1504,7 @@ class Store:
             target.apply_defaults()
             target.set_value(merged_initial_state)
 
+        self._default_wired_stores(process_and_step_updates)
         self._delete_path(mother_path)
         deletions.append(tuple(here + mother_path))
 
